@@ -222,6 +222,25 @@ func Main(t *testing.T, h Harness) {
 			}
 			continue
 		}
+		if os.Getenv("VERIF_DIVERGE") != "" {
+			o2 := h.Run(t, simrt.NewTape(seed, h.Property, run))
+			a, b := o.Sched.Trace, o2.Sched.Trace
+			n := len(a)
+			if len(b) < n {
+				n = len(b)
+			}
+			k := 0
+			for k < n && a[k] == b[k] {
+				k++
+			}
+			if k < n || len(a) != len(b) {
+				lo := k - 12
+				if lo < 0 {
+					lo = 0
+				}
+				fmt.Printf("DIVERGE run %d at decision %d (lens %d/%d)\n  common: %v\n  A: %v\n  B: %v\n", run, k, len(a), len(b), a[lo:k], a[k:min(k+8, len(a))], b[k:min(k+8, len(b))])
+			}
+		}
 		if selftest {
 			o2 := h.Run(t, simrt.NewTape(seed, h.Property, run))
 			sg2 := hash64(o2.Sig, strconv.FormatUint(o2.Sched.Hash, 16))
